@@ -138,6 +138,7 @@ theorem step_inert (cfg : Config) (s : PState ν) (e : Event ν) (h : e.inert = 
   | start t id ref =>
     cases t <;> simp [Event.inert] at h
     simp only [step, onStart, transStart]
+  | startBad t => simp [Event.inert] at h
   | cv c v u => simp [Event.inert] at h
   | text p => simp [Event.inert] at h
   | stop t =>
@@ -530,7 +531,7 @@ theorem elem_kept (cfg : Config) (e : SpecEl ν) (c d : Bool) (k : Option Kind)
     rfl har (by simpa [scanUpd, specUpd, Spectrum.blank, natOf] using hlv)
   rw [run_append, harr]
   refine ⟨c', d', k', ?_⟩
-  simp only [run, step, onEnd, emit, arrsUpd, scanUpd, specUpd, Spectrum.blank, denote, natOf, fltOf,
+  simp only [run, step, onEnd, emit, arrsUpd, scanUpd, specUpd, Spectrum.blank, denote, reading, natOf, fltOf,
     startTimeOf, arrayOf, List.append_nil, List.nil_append, Option.toList]
   simp only [allows, natOf] at hlv
   cases hf : cfg.filter with
@@ -568,6 +569,7 @@ theorem run_cvs_none (cfg : Config) (ps : List (Param ν)) (s : PState ν) (hs :
 def Event.noSpec : Event ν → Bool
   | .start .spectrum _ _ => false
   | .stop .spectrum => false
+  | .startBad _ => false
   | _ => true
 
 theorem run_dead (cfg : Config) (evs : List (Event ν)) (s : PState ν) (hs : s.state = none)
@@ -588,6 +590,7 @@ theorem run_dead (cfg : Config) (evs : List (Event ν)) (s : PState ν) (hs : s.
           | _ => simp [onStart, transStart, hs]
         obtain ⟨s1, e, a, b⟩ := this
         exact ⟨s1, by simp [step, e], a, b⟩
+      | startBad t => simp [Event.noSpec] at h1
       | cv c v u => exact ⟨s, by simp [step, onCv, hs], hs, rfl⟩
       | text p => exact ⟨s, by simp [step, onText, hs], hs, rfl⟩
       | stop t =>
@@ -664,16 +667,126 @@ theorem sections_noSpec (e : SpecEl ν) :
   simp [List.all_flatMap, scanEvents, PrecEl.events, ArrEl.events, ionEvents, List.all_map, Function.comp_def,
     Param.ev, Event.noSpec]
 
+theorem run_arr_skip (cfg : Config) (a : ArrEl ν) (s : PState ν) (f : Nat) (hs : s.state = some .spectrum)
+    (hwf : a.wf = true) (hf : cfg.filter = some f) (hne : s.spectrum.level ≠ f) :
+    ∃ k, run cfg s a.events = .ok ({ s with compression := a.zlib, dtype64 := a.is64, kind := k }, []) := by
+  simp only [ArrEl.wf, Bool.and_eq_true, List.all_eq_true] at hwf
+  obtain ⟨⟨⟨⟨hmiss, hc⟩, hd⟩, hk⟩, _⟩ := hwf
+  have hc' := lastOf_isSome_of_any isComp a.params hc
+  have hd' := lastOf_isSome_of_any isDtype a.params hd
+  have hne' : (s.spectrum.level != f) = true := by simpa using hne
+  obtain ⟨st, c, d, k, sp, pr, lo, hi, nz⟩ := s
+  simp only at hs hne'
+  subst hs
+  simp only [ArrEl.events, run, step, onStart, transStart]
+  rw [run_append, run_bda_cvs cfg a.params _ rfl hmiss]
+  have e1 : ((lastOf isComp a.params).map (fun p => p.c == Cv.zlib)).getD c = a.zlib :=
+    getD_of_isSome _ _ _ (by simpa using hc')
+  have e2 : ((lastOf isDtype a.params).map (fun p => p.c == Cv.f64)).getD d = a.is64 :=
+    getD_of_isSome _ _ _ (by simpa using hd')
+  exact ⟨((lastOf isKindish a.params).map (fun p => p.c.kind)).getD k,
+    by simp [bdaUpd, e1, e2, run, step, onStart, transStart, onText, hf, hne', onEnd]⟩
+
+theorem run_arrs_skip (cfg : Config) (as : List (ArrEl ν)) (s : PState ν) (f : Nat) (hs : s.state = some .spectrum)
+    (hwf : ∀ a ∈ as, a.wf = true) (hf : cfg.filter = some f) (hne : s.spectrum.level ≠ f) :
+    ∃ c d k, run cfg s (as.flatMap ArrEl.events) = .ok ({ s with compression := c, dtype64 := d, kind := k }, []) := by
+  induction as generalizing s with
+  | nil => exact ⟨s.compression, s.dtype64, s.kind, by simp [run]⟩
+  | cons a rest ih =>
+    obtain ⟨k1, h1⟩ := run_arr_skip cfg a s f hs (hwf a (List.mem_cons_self ..)) hf hne
+    obtain ⟨c, d, k, h2⟩ := ih { s with compression := a.zlib, dtype64 := a.is64, kind := k1 } hs
+      (fun q hq => hwf q (List.mem_cons_of_mem _ hq)) hne
+    refine ⟨c, d, k, ?_⟩
+    simp only [List.flatMap_cons]
+    rw [run_append, h1]
+    simp only
+    rw [h2]
+    rfl
+
+theorem lastOf_none_of_forall (f : Cv → Bool) (ps : List (Param ν)) (h : ∀ p ∈ ps, f p.c = false) :
+    lastOf f ps = none := by
+  induction ps with
+  | nil => rfl
+  | cons p ps ih =>
+    simp only [lastOf, ih (fun q hq => h q (List.mem_cons_of_mem _ hq)), h p (List.mem_cons_self ..)]
+    simp
+
+/-- an element without any `ms level` param under a filter other than 0: read to the end (arrays skipped),
+    never emitted -/
+theorem elem_nolevel_dropped (cfg : Config) (e : SpecEl ν) (c d : Bool) (k : Option Kind) (f : Nat)
+    (hwf : e.wf = true) (htic : e.noTicZero = true) (hno : ∀ p ∈ e.params, p.c ≠ .msLevel)
+    (hf : cfg.filter = some f) (hne : f ≠ 0) :
+    ∃ c' d' k', denote cfg e = none ∧
+      run cfg (PState.fresh c d k) e.events = .ok (PState.fresh c' d' k', []) := by
+  have hnat : natOf .msLevel e.params = none := by
+    simp only [natOf, lastOf_none_of_forall (isCv .msLevel) e.params (fun p hp => by simpa [isCv] using hno p hp),
+      Option.map_none]
+  simp only [SpecEl.wf, Bool.and_eq_true, List.all_eq_true, decide_eq_true_eq] at hwf
+  obtain ⟨⟨⟨⟨hps, _⟩, hsc⟩, hpr⟩, har⟩ := hwf
+  simp only [SpecEl.noTicZero, List.all_eq_true, Bool.not_eq_true'] at htic
+  have hd : denote cfg e = none := by
+    have : ((0 : Nat) != f) = true := by simpa using (Ne.symm hne)
+    simp [denote, hnat, hf, this]
+  simp only [SpecEl.events, run, step, onStart, transStart, PState.fresh]
+  rw [run_append, run_spec_cvs cfg e.params _ rfl hps htic (fun p hp hc => absurd hc (hno p hp))]
+  simp only
+  rw [run_append, run_scans cfg e.scans _ rfl hsc]
+  simp only
+  rw [run_append, run_precs cfg e.precs _ (fltOf .invMobility e.scans.flatten) rfl hpr rfl rfl
+    (by simp [scanUpd, specUpd, Precursor.blank, fltOf])]
+  simp only
+  have hlev : ((lastOf (isCv Cv.msLevel) e.params).map (fun p => p.v.natD)).getD 0 = 0 := by
+    have := hnat; simp only [natOf] at this; simp [this]
+  obtain ⟨c', d', k', harr⟩ := run_arrs_skip cfg e.arrays
+    ({ (scanUpd (specUpd (⟨some .spectrum, c, d, k, { (Spectrum.blank : Spectrum ν) with id := e.id },
+        Precursor.blank, none, none, []⟩ : PState ν) e.params) e.scans.flatten) with
+        spectrum := { (scanUpd (specUpd (⟨some .spectrum, c, d, k, { (Spectrum.blank : Spectrum ν) with id := e.id },
+          Precursor.blank, none, none, []⟩ : PState ν) e.params) e.scans.flatten).spectrum with
+          precursors := (scanUpd (specUpd (⟨some .spectrum, c, d, k, { (Spectrum.blank : Spectrum ν) with id := e.id },
+            Precursor.blank, none, none, []⟩ : PState ν) e.params) e.scans.flatten).spectrum.precursors ++
+            denotePrecs (fltOf .invMobility e.scans.flatten) e.precs }
+        precursor := if e.precs.isEmpty then (scanUpd (specUpd (⟨some .spectrum, c, d, k,
+            { (Spectrum.blank : Spectrum ν) with id := e.id }, Precursor.blank, none, none, []⟩ : PState ν) e.params)
+            e.scans.flatten).precursor else Precursor.blank } : PState ν)
+    f rfl har hf (by simp only [scanUpd, specUpd, Spectrum.blank, hlev]; exact Ne.symm hne)
+  rw [run_append, harr]
+  refine ⟨c', d', k', hd, ?_⟩
+  have hb : (f == 0) = false := by simpa using hne
+  simp [run, step, onEnd_spectrum, emit, hf, scanUpd, specUpd, Spectrum.blank, hlev, hb, PState.fresh]
+
+theorem level_cases (ps : List (Param ν)) (h : (ps.filter (fun p => p.c == .msLevel)).length ≤ 1) :
+    (∀ p ∈ ps, p.c ≠ .msLevel) ∨
+      ∃ lv, (∃ p ∈ ps, p.c = .msLevel) ∧ ∀ p ∈ ps, p.c = .msLevel → p.v.natD = lv := by
+  cases hfl : ps.filter (fun p => p.c == .msLevel) with
+  | nil =>
+    left
+    intro p hp hc
+    have : p ∈ ps.filter (fun p => p.c == .msLevel) := List.mem_filter.mpr ⟨hp, by simp [hc]⟩
+    rw [hfl] at this
+    simp at this
+  | cons x rest =>
+    cases rest with
+    | nil =>
+      right
+      have hx : x ∈ ps.filter (fun p => p.c == .msLevel) := by rw [hfl]; simp
+      obtain ⟨hxm, hxc⟩ := List.mem_filter.mp hx
+      refine ⟨x.v.natD, ⟨x, hxm, by simpa using hxc⟩, fun p hp hc => ?_⟩
+      have : p ∈ ps.filter (fun p => p.c == .msLevel) := List.mem_filter.mpr ⟨hp, by simp [hc]⟩
+      rw [hfl] at this
+      simp only [List.mem_singleton] at this
+      rw [this]
+    | cons y rest => rw [hfl] at h; simp at h
+
 /-- the element declares its MS level: there is an `ms level` param and all of them carry `lv` -/
 def DeclaresLevel (e : SpecEl ν) (lv : Nat) : Prop :=
   (∃ p ∈ e.params, p.c = .msLevel) ∧ ∀ p ∈ e.params, p.c = .msLevel → p.v.natD = lv
 
 /-- well-formed spectrum element over the supported vocabulary: schema child order (by the type
 `SpecEl`), every value the reader reads parses, every array re-declares compression / data type /
-kind and its payload decodes (`SpecEl.wf`), the MS level is declared, and no `total ion current`
-param is zero (the recorded defect) -/
+kind and its payload decodes, at most one `ms level` param — possibly none — (`SpecEl.wf`), and no
+`total ion current` param is zero (the recorded defect) -/
 def WellFormed (e : SpecEl ν) : Prop :=
-  e.wf = true ∧ e.noTicZero = true ∧ ∃ lv, DeclaresLevel e lv
+  e.wf = true ∧ e.noTicZero = true
 
 theorem natOf_of_declares (e : SpecEl ν) (lv : Nat) (h : DeclaresLevel e lv) :
     natOf .msLevel e.params = some lv := by
@@ -717,18 +830,38 @@ theorem elem_dropped (cfg : Config) (e : SpecEl ν) (c d : Bool) (k : Option Kin
 /-- one well-formed element, from any state the reader can be in between spectra -/
 theorem elem_faithful (cfg : Config) (e : SpecEl ν) (c d : Bool) (k : Option Kind) (h : WellFormed e) :
     ∃ c' d' k', run cfg (PState.fresh c d k) e.events = .ok (PState.fresh c' d' k', (denote cfg e).toList) := by
-  obtain ⟨hwf, htic, lv, hlv⟩ := h
-  have hnat := natOf_of_declares e lv hlv
-  by_cases ha : allows cfg lv = true
-  · obtain ⟨c', d', k', sp, h1, h2⟩ := elem_kept cfg e c d k hwf htic
-      (fun p hp hc => by rw [hlv.2 p hp hc]; exact ha) (by simpa [hnat] using ha)
-    exact ⟨c', d', k', by rw [h1]; exact h2⟩
-  · cases hf : cfg.filter with
-    | none => simp [allows, hf] at ha
-    | some f =>
-      have hne : lv ≠ f := by simpa [allows, hf] using ha
-      obtain ⟨c', d', k', h1, h2⟩ := elem_dropped cfg e c d k f lv hwf htic hlv hf hne
+  obtain ⟨hwf, htic⟩ := h
+  have hcount : (e.params.filter (fun p => p.c == .msLevel)).length ≤ 1 := by
+    simp only [SpecEl.wf, Bool.and_eq_true, decide_eq_true_eq] at hwf
+    exact hwf.1.1.1.2
+  rcases level_cases e.params hcount with hno | ⟨lv, hlv⟩
+  · -- no `ms level` param: level 0
+    have hnat : natOf .msLevel e.params = none := by
+      simp only [natOf, lastOf_none_of_forall (isCv .msLevel) e.params (fun p hp => by simpa [isCv] using hno p hp),
+        Option.map_none]
+    by_cases ha : allows cfg 0 = true
+    · obtain ⟨c', d', k', sp, h1, h2⟩ := elem_kept cfg e c d k hwf htic
+        (fun p hp hc => absurd hc (hno p hp)) (by simpa [hnat] using ha)
       exact ⟨c', d', k', by rw [h1]; exact h2⟩
+    · cases hf : cfg.filter with
+      | none => simp [allows, hf] at ha
+      | some f =>
+        have hne : f ≠ 0 := by
+          intro h0; apply ha; simp [allows, hf, h0]
+        obtain ⟨c', d', k', h1, h2⟩ := elem_nolevel_dropped cfg e c d k f hwf htic hno hf hne
+        exact ⟨c', d', k', by rw [h1]; exact h2⟩
+  · have hlv : DeclaresLevel e lv := hlv
+    have hnat := natOf_of_declares e lv hlv
+    by_cases ha : allows cfg lv = true
+    · obtain ⟨c', d', k', sp, h1, h2⟩ := elem_kept cfg e c d k hwf htic
+        (fun p hp hc => by rw [hlv.2 p hp hc]; exact ha) (by simpa [hnat] using ha)
+      exact ⟨c', d', k', by rw [h1]; exact h2⟩
+    · cases hf : cfg.filter with
+      | none => simp [allows, hf] at ha
+      | some f =>
+        have hne : lv ≠ f := by simpa [allows, hf] using ha
+        obtain ⟨c', d', k', h1, h2⟩ := elem_dropped cfg e c d k f lv hwf htic hlv hf hne
+        exact ⟨c', d', k', by rw [h1]; exact h2⟩
 
 theorem doc_faithful (cfg : Config) (els : List (SpecEl ν)) (c d : Bool) (k : Option Kind)
     (h : ∀ e ∈ els, WellFormed e) :
@@ -784,6 +917,243 @@ theorem chunks_append (n : Nat) (hn : 0 < n) (w rest : List UInt8) (hw : w.lengt
     rw [h1, h2]
     congr 1
     exact chunksF_fuel n hn _ rest (by simp)
+
+
+/-! ### totality and error classes -/
+
+/-- which error classes one event can raise -/
+def Event.mayRaise : Event ν → List Err
+  | .start .spectrum none _ => [.malformed]           -- `<spectrum>` without `id`
+  | .start _ _ _ => []
+  | .startBad .spectrum => [.xml]                      -- malformed entity in `id`
+  | .startBad .precursor => [.xml]                     -- malformed entity in `spectrumRef`
+  | .startBad _ => []
+  | .cv _ _ _ => [.malformed, .float, .int]            -- missing accession / value / unit; unparsable number
+  | .text _ => [.base64, .io]                          -- not base64; not a zlib stream
+  | .stop _ => []
+  | .empty _ => []
+
+theorem step_errors (cfg : Config) (s : PState ν) (ev : Event ν) (e : Err) (h : step cfg s ev = .error e) :
+    e ∈ ev.mayRaise := by
+  cases ev with
+  | start t id ref =>
+    cases t <;> cases id <;> cases ref <;> simp_all [step, onStart, Event.mayRaise]
+  | startBad t => cases t <;> simp_all [step, onStart, Event.mayRaise]
+  | cv c v u =>
+    have hval : ∀ x, v.float = .error x → x = Err.malformed ∨ x = Err.float := by
+      intro x hx; cases v <;> simp_all [Val.float]
+    have hu8 : ∀ x, v.u8 = .error x → x = Err.malformed ∨ x = Err.int := by
+      intro x hx
+      cases v <;> simp_all [Val.u8]
+      split at hx <;> simp_all
+    simp only [step] at h
+    simp only [Event.mayRaise, List.mem_cons, List.not_mem_nil, or_false]
+    cases hr : onCv cfg s c v u with
+    | ok s' => simp [hr] at h
+    | error x =>
+      simp only [hr, Except.error.injEq] at h
+      subst h
+      unfold onCv at hr
+      cases hs : s.state with
+      | none => simp [hs] at hr
+      | some st =>
+        cases st <;> simp only [hs] at hr
+        · -- spectrum
+          unfold cvSpectrum at hr
+          cases c <;> simp at hr <;> try (simp_all; done)
+          · cases hv : v.u8 with
+            | error y => rw [hv] at hr; simp at hr; subst hr; rcases hu8 y hv with h | h <;> simp [h]
+            | ok n => rw [hv] at hr; simp at hr
+          · cases hv : v.float with
+            | error y => rw [hv] at hr; simp at hr; subst hr; rcases hval y hv with h | h <;> simp [h]
+            | ok n => rw [hv] at hr; simp at hr; split at hr <;> simp at hr
+        · -- scan
+          unfold cvScan at hr
+          cases c <;> simp at hr <;> try (simp_all; done)
+          all_goals
+            cases hv : v.float with
+            | error y => rw [hv] at hr; simp at hr; subst hr; rcases hval y hv with h | h <;> simp [h]
+            | ok n => rw [hv] at hr; simp at hr; try (cases u <;> simp_all)
+        · -- binaryDataArray
+          unfold cvBda at hr
+          cases c <;> simp_all
+        · simp at hr
+        · -- precursor
+          unfold cvPrecursor at hr
+          cases c <;> simp at hr <;> try (simp_all; done)
+          all_goals
+            cases hv : v.float with
+            | error y => rw [hv] at hr; simp at hr; subst hr; rcases hval y hv with h | h <;> simp [h]
+            | ok n => rw [hv] at hr; simp at hr
+        · -- selectedIon
+          unfold cvSelectedIon at hr
+          cases c <;> simp at hr <;> try (simp_all; done)
+          · cases hv : v.float with
+            | error y => rw [hv] at hr; simp at hr; subst hr; rcases hval y hv with h | h <;> simp [h]
+            | ok n => rw [hv] at hr; simp at hr
+          · cases hv : v.float with
+            | error y => rw [hv] at hr; simp at hr; subst hr; rcases hval y hv with h | h <;> simp [h]
+            | ok n => rw [hv] at hr; simp at hr
+          · cases hv : v.u8 with
+            | error y => rw [hv] at hr; simp at hr; subst hr; rcases hu8 y hv with h | h <;> simp [h]
+            | ok n => rw [hv] at hr; simp at hr
+          · cases hv : v.float with
+            | error y => rw [hv] at hr; simp at hr; subst hr; rcases hval y hv with h | h <;> simp [h]
+            | ok n => rw [hv] at hr; simp at hr
+  | text p =>
+    simp only [step] at h
+    simp only [Event.mayRaise, List.mem_cons, List.not_mem_nil, or_false]
+    cases hr : onText cfg s p with
+    | ok s' => simp [hr] at h
+    | error x =>
+      simp only [hr, Except.error.injEq] at h
+      subst h
+      by_cases h1 : s.state = some .binary
+      · cases hk : s.kind <;> cases p <;> simp only [onText, h1, hk] at hr <;>
+          (repeat' (split at hr)) <;> simp_all
+      · simp [onText, h1] at hr
+  | stop t => simp [step] at h
+  | empty t => simp [step] at h
+
+theorem run_error_source (cfg : Config) (s : PState ν) (evs : List (Event ν)) (e : Err)
+    (h : run cfg s evs = .error e) : ∃ ev ∈ evs, e ∈ ev.mayRaise := by
+  induction evs generalizing s with
+  | nil => simp [run] at h
+  | cons ev rest ih =>
+    simp only [run] at h
+    cases hs : step cfg s ev with
+    | error x =>
+      simp only [hs, Except.error.injEq] at h
+      subst h
+      exact ⟨ev, List.mem_cons_self .., step_errors cfg s ev x hs⟩
+    | ok r =>
+      obtain ⟨s1, o1⟩ := r
+      simp only [hs] at h
+      cases hr : run cfg s1 rest with
+      | error x =>
+        simp only [hr, Except.error.injEq] at h
+        subst h
+        obtain ⟨ev', hm, he⟩ := ih s1 hr
+        exact ⟨ev', List.mem_cons_of_mem _ hm, he⟩
+      | ok r2 => simp [hr] at h
+
+/-! ### children in any order (no level filter) -/
+
+/-- a child of `<spectrum>`; a `SpecElU` lists them in document order, whatever it is -/
+inductive Child (ν : Type)
+  | param (p : Param ν)
+  | scan (ps : List (Param ν))
+  | prec (p : PrecEl ν)
+  | arr (a : ArrEl ν)
+
+structure SpecElU (ν : Type) where
+  id : String
+  children : List (Child ν)
+
+def Child.events : Child ν → List (Event ν)
+  | .param p => [p.ev]
+  | .scan ps => scanEvents ps
+  | .prec p => p.events
+  | .arr a => a.events
+
+def SpecElU.events (e : SpecElU ν) : List (Event ν) :=
+  .start .spectrum (some e.id) none :: (e.children.flatMap Child.events ++ [.stop .spectrum])
+
+def Child.wf : Child ν → Bool
+  | .param p => p.okSpectrum && !p.ticZero
+  | .scan ps => ps.all Param.okScan
+  | .prec p => p.wf
+  | .arr a => a.wf
+
+/-- what has been read of the element so far: the spectrum, its noise array, and the ion mobility a
+    `<scan>` announced for the next `<precursor>` -/
+structure Acc (ν : Type) where
+  spectrum : Spectrum ν
+  noise : List ν
+  pendingMob : Option ν
+
+/-- reading one more child: every field is "last one wins", precursors are appended, a scan's ion
+    mobility waits for the next precursor -/
+def Acc.step (a : Acc ν) : Child ν → Acc ν
+  | .param p =>
+    { a with spectrum := { a.spectrum with
+        level := if isCv .msLevel p.c then p.v.natD else a.spectrum.level
+        centroid := if isRepr p.c then p.c == .centroid else a.spectrum.centroid
+        tic := if isCv .tic p.c then p.v.fltD else a.spectrum.tic } }
+  | .scan ps =>
+    { a with
+      spectrum := { a.spectrum with
+        startTime := ((lastOf (isCv .scanStart) ps).map Param.startVal).getD a.spectrum.startTime
+        injection := ((lastOf (isCv .injectionTime) ps).map (fun p => p.v.fltD)).getD a.spectrum.injection }
+      pendingMob := ((lastOf (isCv .invMobility) ps).map (fun p => p.v.fltD)).or a.pendingMob }
+  | .prec p =>
+    { a with
+      spectrum := { a.spectrum with precursors := a.spectrum.precursors ++ (denotePrec a.pendingMob p).toList }
+      pendingMob := none }
+  | .arr x =>
+    { a with
+      spectrum := { a.spectrum with
+        mz := if x.kind == some .mz then x.values.getD a.spectrum.mz else a.spectrum.mz
+        intensity := if x.kind == some .intensity then x.values.getD a.spectrum.intensity else a.spectrum.intensity }
+      noise := if x.kind == some .noise then x.values.getD a.noise else a.noise }
+
+/-- the reading of an element whose children come in any order (no level filter): a left fold -/
+def readingU (cfg : Config) (e : SpecElU ν) : Spectrum ν :=
+  let a := e.children.foldl Acc.step ⟨{ (Spectrum.blank : Spectrum ν) with id := e.id }, [], none⟩
+  { a.spectrum with
+    intensity := if cfg.sn == some a.spectrum.level && !a.noise.isEmpty then zipDiv a.spectrum.intensity a.noise
+                 else a.spectrum.intensity }
+
+/-- the parser state that corresponds to an accumulator, between two children -/
+def Acc.toState (a : Acc ν) (c d : Bool) (k : Option Kind) : PState ν :=
+  ⟨some .spectrum, c, d, k, a.spectrum, { (Precursor.blank : Precursor ν) with mobility := a.pendingMob }, none, none, a.noise⟩
+
+theorem child_run (cfg : Config) (hf : cfg.filter = none) (ch : Child ν) (a : Acc ν) (c d : Bool) (k : Option Kind)
+    (hwf : ch.wf = true) :
+    ∃ c' d' k', run cfg (a.toState c d k) ch.events = .ok ((a.step ch).toState c' d' k', []) := by
+  have hal : ∀ lv, allows cfg lv = true := by intro lv; simp [allows, hf]
+  cases ch with
+  | param p =>
+    simp only [Child.wf, Bool.and_eq_true, Bool.not_eq_true'] at hwf
+    refine ⟨c, d, k, ?_⟩
+    simp only [Child.events, run, Param.ev, step, onCv, Acc.toState,
+      cvSpectrum_ok cfg _ p hwf.1 hwf.2 (fun _ => hal _)]
+    rfl
+  | scan ps =>
+    simp only [Child.wf, List.all_eq_true] at hwf
+    refine ⟨c, d, k, ?_⟩
+    simp only [Child.events]
+    rw [run_scanEvents cfg ps _ rfl hwf]
+    rfl
+  | prec p =>
+    simp only [Child.wf] at hwf
+    refine ⟨c, d, k, ?_⟩
+    simp only [Child.events]
+    rw [run_prec cfg p _ a.pendingMob rfl hwf rfl rfl rfl]
+    rfl
+  | arr x =>
+    simp only [Child.wf] at hwf
+    obtain ⟨k1, h1⟩ := run_arr cfg x (a.toState c d k) rfl hwf (hal _)
+    refine ⟨x.zlib, x.is64, k1, ?_⟩
+    simp only [Child.events]
+    rw [h1]
+    rfl
+
+theorem children_run (cfg : Config) (hf : cfg.filter = none) (chs : List (Child ν)) (a : Acc ν) (c d : Bool)
+    (k : Option Kind) (hwf : ∀ ch ∈ chs, ch.wf = true) :
+    ∃ c' d' k', run cfg (a.toState c d k) (chs.flatMap Child.events) =
+      .ok ((chs.foldl Acc.step a).toState c' d' k', []) := by
+  induction chs generalizing a c d k with
+  | nil => exact ⟨c, d, k, rfl⟩
+  | cons ch rest ih =>
+    obtain ⟨c1, d1, k1, h1⟩ := child_run cfg hf ch a c d k (hwf ch (List.mem_cons_self ..))
+    obtain ⟨c2, d2, k2, h2⟩ := ih (a.step ch) c1 d1 k1 (fun q hq => hwf q (List.mem_cons_of_mem _ hq))
+    refine ⟨c2, d2, k2, ?_⟩
+    simp only [List.flatMap_cons, List.foldl_cons]
+    rw [run_append, h1]
+    simp only
+    rw [h2]
+    rfl
 
 /-! ## property theorems -/
 
@@ -913,6 +1283,27 @@ example : strip (ν := Int) [.start (.other 0) none none, .start .scan none none
     .cv .scanStart (.nat 90) .seconds, .stop .scan, .stop (.other 0)] =
     [.start .scan none none, .cv .scanStart (.nat 90) .seconds, .stop .scan] := by decide
 
+/-- **C16.parse_total** — the model's `parse` is a total function: for EVERY event list (any events,
+any order, any nesting) it returns either a list of spectra or one of six error values
+(`malformed`, `float`, `int`, `base64`, `io`, `xml`), and an error is always attributable to one
+event of the document that can raise exactly that class (`Event.mayRaise`: `<spectrum>` without id →
+malformed; malformed entity in id / spectrumRef → xml; cvParam → malformed / float / int; binary text →
+base64 / io; end tags and other empty elements never fail). There is no third outcome: the model has
+no partial operation (no indexing, no unwrap, no unbounded loop). That the Rust function has no other
+outcome either — no panic, no hang — is what the differential run observes. -/
+theorem parse_total (cfg : Config) (doc : List (Event ν)) :
+    (∃ sps, parse cfg doc = .ok sps) ∨
+    (∃ e, parse cfg doc = .error e ∧ ∃ ev ∈ doc, e ∈ ev.mayRaise) := by
+  unfold parse
+  cases h : run cfg PState.init doc with
+  | ok r => exact Or.inl ⟨r.2, rfl⟩
+  | error e => exact Or.inr ⟨e, rfl, run_error_source cfg _ doc e h⟩
+
+/-- non-vacuity: both outcomes occur; the error is the unit-less scan start time's `malformed` -/
+example : (parse (ν := Int) {} [.start .spectrum (some "a") none, .stop .spectrum]).toOption.map List.length = some 1 ∧
+    (match parse (ν := Int) {} [.start .spectrum (some "a") none, .start .scan none none,
+        .cv .scanStart (.nat 5) .absent] with | .error .malformed => true | _ => false) = true := by decide
+
 /-- **C16.faithful** — a document made of well-formed spectrum elements parses to exactly one
 spectrum per element that passes the MS-level filter, in document order, and each is `denote e`:
 the element's own id, MS level, centroid/profile flag, TIC, start time (seconds ÷ 60, minutes as
@@ -959,10 +1350,9 @@ def exBare : SpecEl Int :=
   { id := "scan=2", params := [⟨.msLevel, .nat 2, .absent⟩], scans := [],
     precs := [{ ref := none, iso := [], ions := [[⟨.selMz, .nat 500, .absent⟩]], act := [] }], arrays := [] }
 
-instance (e : SpecEl Int) (lv : Nat) : Decidable (DeclaresLevel e lv) := by unfold DeclaresLevel; infer_instance
 
-theorem exRich_wf : WellFormed exRich := ⟨by decide, by decide, 2, by decide⟩
-theorem exBare_wf : WellFormed exBare := ⟨by decide, by decide, 2, by decide⟩
+theorem exRich_wf : WellFormed exRich := ⟨by decide, by decide⟩
+theorem exBare_wf : WellFormed exBare := ⟨by decide, by decide⟩
 
 /-- non-vacuity of `faithful` / `locality`: the hypotheses hold for a rich element followed by a
 bare one, and the bare one's spectrum shows none of the rich one's fields -/
@@ -984,6 +1374,193 @@ example : denoteDoc (ν := Int) { filter := some 1 } [exRich, exBare] = [] := by
 def exTicZero : SpecEl Int :=
   { id := "zero", params := [⟨.msLevel, .nat 2, .absent⟩, ⟨.centroid, .absent, .absent⟩, ⟨.tic, .nat 0, .absent⟩],
     scans := [], precs := [], arrays := [] }
+
+/-- the MS level an element declares (0 when it declares none, as in the code) -/
+def levelOf (e : SpecEl ν) : Nat := (natOf .msLevel e.params).getD 0
+
+theorem denote_filter (cfg : Config) (l : Nat) (e : SpecEl ν) :
+    denote { cfg with filter := some l } e =
+      if levelOf e = l then denote { cfg with filter := none } e else none := by
+  simp only [denote, levelOf, reading]
+  by_cases h : (natOf Cv.msLevel e.params).getD 0 = l <;> simp [h]
+
+/-- **C16.level_filter** — with the MS-level filter set to `l`, a well-formed document parses to
+exactly the readings (taken WITHOUT a filter) of the elements whose declared level is `l`, in
+document order: the filter removes whole spectra and changes nothing else. -/
+theorem level_filter (cfg : Config) (l : Nat) (els : List (SpecEl ν)) (h : ∀ e ∈ els, WellFormed e) :
+    parse { cfg with filter := some l } (els.flatMap SpecEl.events) =
+      .ok (denoteDoc { cfg with filter := none } (els.filter (fun e => levelOf e == l))) := by
+  rw [faithful _ els h]
+  congr 1
+  induction els with
+  | nil => rfl
+  | cons e rest ih =>
+    have ih' := ih (fun q hq => h q (List.mem_cons_of_mem _ hq))
+    simp only [denoteDoc, List.filterMap_cons, List.filter_cons, denote_filter] at ih' ⊢
+    by_cases hl : levelOf e = l
+    · simp only [hl, if_true, beq_self_eq_true, List.filterMap_cons]
+      cases denote { cfg with filter := none } e <;> simp [ih']
+    · have : (levelOf e == l) = false := by simpa using hl
+      simp only [hl, if_false, this, Bool.false_eq_true]
+      exact ih'
+
+/-- non-vacuity: an MS1 element between two MS2 elements; filter 2 keeps the MS2 ones, in order -/
+def exMs1 : SpecEl Int :=
+  { id := "ms1", params := [⟨.msLevel, .nat 1, .absent⟩], scans := [[⟨.invMobility, .nat 9, .absent⟩]], precs := [],
+    arrays := [] }
+theorem exMs1_wf : WellFormed exMs1 := ⟨by decide, by decide⟩
+
+example : (parse (ν := Int) { filter := some 2 } ([exRich, exMs1, exBare].flatMap SpecEl.events)).toOption.map
+    (fun sps => sps.map (·.id)) = some ["scan=1", "scan=2"] := by decide
+
+theorem zipDiv_length (xs ns : List ν) : (zipDiv xs ns).length = xs.length := by
+  induction xs generalizing ns with
+  | nil => cases ns <;> rfl
+  | cons x xs ih => cases ns <;> simp [zipDiv, ih]
+
+theorem zipDiv_get (xs ns : List ν) (i : Nat) :
+    (zipDiv xs ns)[i]? =
+      match xs[i]?, ns[i]? with
+      | some x, some n => some (div x n)
+      | some x, none => some x
+      | none, _ => none := by
+  induction xs generalizing ns i with
+  | nil => cases ns <;> simp [zipDiv]
+  | cons x xs ih =>
+    cases ns with
+    | nil => simp only [zipDiv, List.getElem?_nil]; cases (x :: xs)[i]? <;> rfl
+    | cons n ns =>
+      cases i with
+      | zero => simp [zipDiv]
+      | succ i => simp only [zipDiv, List.getElem?_cons_succ]; exact ih ns i
+
+/-- **C16.signal_to_noise** — the intensities of the spectrum read from an element are the element's
+own intensity array, divided POINTWISE by the element's own noise array exactly when S/N is requested
+for the element's level and that noise array is non-empty: value `i` becomes `intensity[i] / noise[i]`
+where the noise array has an `i`-th value and stays `intensity[i]` beyond its end; the length never
+changes; in every other case the intensities are returned as encoded. The m/z array is never touched.
+(Nothing but `e` enters: by `locality` this is also what the reader returns after any prefix.) -/
+theorem signal_to_noise (cfg : Config) (e : SpecEl ν) (sp : Spectrum ν) (h : denote cfg e = some sp) :
+    sp.mz = arrayOf .mz e.arrays ∧
+    sp.intensity.length = (arrayOf .intensity e.arrays).length ∧
+    (∀ i : Nat, sp.intensity[i]? =
+      if cfg.sn = some (levelOf e) ∧ arrayOf .noise e.arrays ≠ [] then
+        match (arrayOf .intensity e.arrays)[i]?, (arrayOf .noise e.arrays)[i]? with
+        | some x, some n => some (div x n)
+        | some x, none => some x
+        | none, _ => none
+      else (arrayOf .intensity e.arrays)[i]?) := by
+  have hsp : sp = reading cfg e := by
+    unfold denote at h
+    cases hf : cfg.filter with
+    | none => simp [hf] at h; exact h.symm
+    | some f => simp [hf] at h; exact h.2.symm
+  subst hsp
+  refine ⟨rfl, ?_⟩
+  simp only [reading]
+  by_cases hc : cfg.sn = some (levelOf e) ∧ arrayOf Kind.noise e.arrays ≠ []
+  · have hc' : cfg.sn = some ((natOf Cv.msLevel e.params).getD 0) ∧ arrayOf Kind.noise e.arrays ≠ [] := hc
+    have hb : (cfg.sn == some ((natOf Cv.msLevel e.params).getD 0) && !(arrayOf Kind.noise e.arrays).isEmpty) = true := by
+      simp [hc'.1, hc'.2]
+    simp only [hb, if_true]
+    refine ⟨zipDiv_length _ _, fun i => ?_⟩
+    rw [if_pos hc, zipDiv_get]
+  · have hb : (cfg.sn == some ((natOf Cv.msLevel e.params).getD 0) && !(arrayOf Kind.noise e.arrays).isEmpty) = false := by
+      rw [Bool.eq_false_iff]
+      intro hb
+      simp only [Bool.and_eq_true, beq_iff_eq, Bool.not_eq_true', List.isEmpty_eq_false_iff] at hb
+      exact hc ⟨hb.1, hb.2⟩
+    simp only [hb, Bool.false_eq_true, if_false]
+    refine ⟨trivial, fun i => ?_⟩
+    rw [if_neg hc]
+
+/-- non-vacuity: noise `[4, 0]` against intensities `[8, 10, 3]` at the requested level -/
+def exNoise : SpecEl Int :=
+  { id := "n", params := [⟨.msLevel, .nat 2, .absent⟩], scans := [], precs := [],
+    arrays := [{ params := [⟨.intensityArray, .absent, .absent⟩, ⟨.f32, .absent, .absent⟩, ⟨.noCompression, .absent, .absent⟩],
+                 payload := .data [8, 0, 0, 0, 10, 0, 0, 0, 3, 0, 0, 0] none },
+               { params := [⟨.noiseArray, .absent, .absent⟩, ⟨.f32, .absent, .absent⟩, ⟨.noCompression, .absent, .absent⟩],
+                 payload := .data [4, 0, 0, 0, 2, 0, 0, 0] none }] }
+
+example : (denote (ν := Int) { sn := some 2 } exNoise).map (·.intensity) = some [2, 5, 3] ∧
+    (denote (ν := Int) { sn := some 3 } exNoise).map (·.intensity) = some [8, 10, 3] := by decide
+
+/-- non-vacuity of the extension to elements WITHOUT an `ms level` param: such an element is
+well-formed; it reads as level 0 and only a filter on level 0 (or none) lets it through -/
+def exNoLevel : SpecEl Int :=
+  { id := "nolevel", params := [⟨.centroid, .absent, .absent⟩], scans := [[⟨.scanStart, .nat 3, .minutes⟩]], precs := [],
+    arrays := [{ params := [⟨.mzArray, .absent, .absent⟩, ⟨.f32, .absent, .absent⟩, ⟨.noCompression, .absent, .absent⟩],
+                 payload := .data [7, 0, 0, 0] none }] }
+theorem exNoLevel_wf : WellFormed exNoLevel := ⟨by decide, by decide⟩
+example : denote (ν := Int) {} exNoLevel = some ⟨"nolevel", 0, true, 0, 3, 0, [], [7], []⟩ ∧
+    denote (ν := Int) { filter := some 2 } exNoLevel = none ∧
+    (parse (ν := Int) { filter := some 2 } ([exNoLevel, exBare].flatMap SpecEl.events)).toOption.map
+      (fun sps => sps.map (·.id)) = some ["scan=2"] := by decide
+
+/-- **C16.faithful_unordered** — without a level filter the reader's result IS a clean function of a
+well-nested element whose children (cvParams, scans, precursors, binary data arrays, each
+well-formed) come in ANY order: the left fold `readingU` — every scalar field and every array kind
+"last one wins", one precursor appended per `<precursor>` with non-zero m/z, a scan's ion mobility
+handed to the next precursor only — then the S/N division. From any between-spectra state, exactly
+that spectrum is emitted and the state is fresh again (so `locality` carries over verbatim). With a
+level filter this fails: see `child_order_matters`. -/
+theorem faithful_unordered (cfg : Config) (hf : cfg.filter = none) (e : SpecElU ν) (c d : Bool) (k : Option Kind)
+    (hwf : ∀ ch ∈ e.children, ch.wf = true) :
+    ∃ c' d' k', run cfg (PState.fresh c d k) e.events = .ok (PState.fresh c' d' k', [readingU cfg e]) := by
+  obtain ⟨c', d', k', h⟩ := children_run cfg hf e.children
+    ⟨{ (Spectrum.blank : Spectrum ν) with id := e.id }, [], none⟩ c d k hwf
+  refine ⟨c', d', k', ?_⟩
+  simp only [SpecElU.events, run, step, onStart, transStart, PState.fresh]
+  have hst : (⟨some St.spectrum, c, d, k, { (Spectrum.blank : Spectrum ν) with id := e.id }, Precursor.blank, none, none, []⟩ : PState ν)
+      = Acc.toState ⟨{ (Spectrum.blank : Spectrum ν) with id := e.id }, [], none⟩ c d k := rfl
+  simp only [Spectrum.blank] at hst h ⊢
+  rw [hst, run_append, h]
+  simp only [run, step, onEnd_spectrum, emit, hf, Acc.toState, PState.fresh, readingU, Spectrum.blank,
+    List.append_nil, List.nil_append, Option.toList]
+  cases hsn : cfg.sn with
+  | none => simp
+  | some l =>
+    by_cases hl : l = (List.foldl Acc.step ⟨⟨e.id, 0, false, zero, zero, zero, [], [], []⟩, [], none⟩ e.children).spectrum.level <;>
+      by_cases hn : (List.foldl Acc.step ⟨⟨e.id, 0, false, zero, zero, zero, [], [], []⟩, [], none⟩ e.children).noise = [] <;>
+      simp [hl, hn]
+
+/-- non-vacuity: arrays first, then the precursor, then the scan (whose mobility therefore reaches no
+precursor), then the params -/
+def exUnordered : SpecElU Int :=
+  { id := "u"
+    children :=
+      [.arr ⟨[⟨.intensityArray, .absent, .absent⟩, ⟨.f32, .absent, .absent⟩, ⟨.noCompression, .absent, .absent⟩],
+             .data [8, 0, 0, 0, 10, 0, 0, 0] none⟩,
+       .prec ⟨none, [], [[⟨.selMz, .nat 500, .absent⟩]], []⟩,
+       .scan [⟨.scanStart, .nat 120, .seconds⟩, ⟨.invMobility, .nat 9, .absent⟩],
+       .param ⟨.msLevel, .nat 2, .absent⟩] }
+
+example : exUnordered.children.all Child.wf = true ∧
+    readingU {} exUnordered = ⟨"u", 2, false, 0, 2, 0, [⟨500, none, none, none, none, none⟩], [], [8, 10]⟩ ∧
+    (parse {} exUnordered.events).toOption = some [readingU {} exUnordered] := by decide
+
+/-- **C16.child_order_matters** — outside the schema's child order the reader's result is NOT a
+function of the set of children (so `faithful` cannot be extended to arbitrary orders by sorting):
+(1) with a level filter, an array that precedes the `ms level` param is skipped (the level is still 0
+when its text is read), the same array after the param is kept; (2) even without a filter, a `<scan>`
+that carries the ion mobility gives it to the next `<precursor>` only: placed after the precursor it
+is lost. Concrete witnesses on the model (the correspondence stream `chaos` ties such orders to the
+code). -/
+theorem child_order_matters :
+    let level : Event Int := .cv .msLevel (.nat 2) .absent
+    let arr : List (Event Int) := [.start .binaryDataArray none none, .cv .mzArray .absent .absent,
+      .cv .f32 .absent .absent, .cv .noCompression .absent .absent, .start .binary none none,
+      .text (.data [7, 0, 0, 0] none), .stop .binary, .stop .binaryDataArray]
+    let scan : List (Event Int) := [.start .scan none none, .cv .invMobility (.nat 9) .absent, .stop .scan]
+    let prec : List (Event Int) := [.start .precursor none none, .start .selectedIon none none,
+      .cv .selMz (.nat 500) .absent, .stop .selectedIon, .stop .precursor]
+    let doc (body : List (Event Int)) := [Event.start .spectrum (some "a") none] ++ body ++ [.stop .spectrum]
+    (parse { filter := some 2 } (doc (level :: arr))).toOption.map (fun sps => sps.map (·.mz)) = some [[7]] ∧
+    (parse { filter := some 2 } (doc (arr ++ [level]))).toOption.map (fun sps => sps.map (·.mz)) = some [[]] ∧
+    (parse {} (doc (level :: scan ++ prec))).toOption.map (fun sps => sps.map (fun sp => sp.precursors.map (·.mobility)))
+      = some [[some 9]] ∧
+    (parse {} (doc (level :: prec ++ scan))).toOption.map (fun sps => sps.map (fun sp => sp.precursors.map (·.mobility)))
+      = some [[none]] := by decide
 
 /-- **C16.tic_zero_blank_spectrum** — the full-strength statement (without the `noTicZero` hypothesis)
 is FALSE of the code as it is: an MS2 element with `total ion current = 0` is read as a blank
